@@ -87,6 +87,7 @@ type World struct {
 	Trace   func(string)
 	Data    any // profile-private state
 	stopped bool
+	quiet   bool
 	sigH    uint64
 }
 
@@ -120,6 +121,15 @@ func (w *World) BumpTag(t int64) {
 }
 
 func (w *World) Noop() { w.Stats.OpsNoop++ }
+
+// StopQuietly ends the world without a violation (used after a listed known finding whose
+// consequences would otherwise be reported again and again). Drain and Finish are skipped.
+func (w *World) StopQuietly(why string) {
+	w.stopped = true
+	w.quiet = true
+	w.Stats.Probe("world_ended_after_known_finding")
+	w.Tracef("world ends: %s", why)
+}
 
 func (w *World) Tracef(format string, a ...any) {
 	if w.Trace != nil {
